@@ -34,6 +34,10 @@ FORBIDDEN = re.compile(
     re.M,
 )
 os.environ.setdefault("RESONAATE_VERIF", "1")
+import logging as _logging
+
+_logging.getLogger("resonaate").setLevel(_logging.CRITICAL)
+_logging.getLogger("resonaate").propagate = False
 
 
 # ----------------------------------------------------------------------------- numbers
